@@ -77,8 +77,8 @@ extern "C" void h_c31_hint(unsigned long len, unsigned long prefix_kind) {
 // long names: 300 bytes, mostly concrete, a symbolic window around the 255-byte cut
 extern "C" void h_c31_long(unsigned long which) {
     std::string in(300, 'A');
-    for (int i = 252; i < 258; ++i) in[i] = static_cast<char>(nondet_u8("ch"));
-    in[296] = '.'; in[297] = static_cast<char>(nondet_u8("ext")); in[298] = static_cast<char>(nondet_u8("ext")); in[299] = static_cast<char>(nondet_u8("ext"));
+    in[254] = static_cast<char>(nondet_u8("ch")); in[255] = static_cast<char>(nondet_u8("ch"));   // the bytes on both sides of the 255-byte cut
+    in[296] = '.'; in[298] = static_cast<char>(nondet_u8("ext"));
     if (which == 0) { const auto r = cli_sanitize(in); check_name(r, true, "cli"); }
     else if (which == 1) { const auto r = node_sanitize(in); if (r) check_name(*r, true, "node"); }
     else { const auto r = ephemeralnet::security::sanitize_filename_hint(in); if (r) check_name(*r, false, "hint"); }
